@@ -1,6 +1,1209 @@
-//! C17 — stub (not yet implemented; not registered in MANIFEST.json).
-use crate::fw::{CheckDef, Ctx};
+//! C17 — rewrite rules and layered configuration resolve as documented.
+//!
+//! Three exhaustive families, all run on the REAL okane import code and compared with a small reference:
+//!
+//!  A. configuration layering: every list of <= 3 (thorough: additionally every list of 4 over a reduced
+//!     alphabet) YAML documents from a 40-document alphabet (5 `path`s x 8 bodies) x 4 file paths, observed
+//!     through `config::load_from_yaml` + `ConfigSet::select`.
+//!  B. rule folding: every rule list of length <= 3 (thorough <= 4) from a 12-rule alphabet x 12 records, through
+//!     the CSV importer and through the Viseca importer; every rule list of length <= 3 (thorough <= 4) from
+//!     a 9-rule camt alphabet x 7 records through the ISO Camt053 importer. Observed on the PRINTED transaction
+//!     (`load_from_yaml` -> `select` -> `import::import` -> `Txn::to_double_entry` -> `DisplayContext::as_display`,
+//!     i.e. the body of `ImportCmd::run` without the file system).
+//!  C. end to end: every ordered pair of rules split over two layered documents (`bank/`, `bank/acct`), both
+//!     document orders, x 4 records, through `okane::cmd::ImportCmd::run` on real files.
+//!
+//! The reference is NON-DETERMINISTIC where the statement is silent: it returns the SET of acceptable
+//! results (tie order of equal-length paths; whole-override vs. per-key merge of `format`; which of several
+//! matching OR elements supplies the captures). One acceptable result => MUST; several => the observation
+//! must still be one of them (else violation), and the case is counted DON'T-CARE.
 
-pub const DEF: CheckDef = CheckDef { id: "C17", run, technique: "stub", rule: "stub", assumptions: &[], shards: 0, hang_s: 20, single_worker: false };
+use std::cell::RefCell;
+use std::collections::{BTreeSet, HashMap};
+use std::path::{Path, PathBuf};
 
-fn run(_ctx: &mut Ctx) {}
+use okane::import::{self, config};
+use okane_core::syntax::display::DisplayContext;
+
+use crate::fw::{CheckDef, Ctx, Outcome};
+
+pub const DEF: CheckDef = CheckDef {
+    id: "C17",
+    run,
+    technique: "bounded-exhaustive enumeration of configuration-document lists x file paths (through ConfigSet::select) and of rewrite-rule lists x records (through the real CSV / Viseca / ISO-Camt053 importers and the transaction printer, plus ImportCmd::run on real files), each compared with a set-valued reference model of the documented merge and fold",
+    rule: "case = (document list, file path) [family A], (importer, rule list, record) [family B] or (rule pair split over two layered documents, document order, record) [family C]. states = cases executed, transitions = real-code executions compared with the reference; a case is MUST when the reference admits exactly one result, DON'T-CARE (observation still required to be one of the admitted results) when the statement leaves several open",
+    assumptions: &[
+        "the reference matches patterns with the `regex` crate (search semantics, case-insensitive): regex semantics themselves are trusted, not verified",
+        "case-insensitive matching is taken from the property's anchored mechanism (extract.rs regex_matcher); the statement and doc/import.ja.md do not mention it (constant CASE_FOLD_IS_MUST)",
+        "alphabets avoid what the statement leaves open: empty / non-participating capture groups, a rule with both `payee:` and a payee capture, an AND element with two capturing fields or with a `payee` field next to a payee-capturing field (its result would depend on HashMap order)",
+        "camt053: the payee printed when no rule set one, and the code when the record carries an AcctSvcrRef, are not judged",
+    ],
+    shards: 64,
+    hang_s: 20,
+    single_worker: false,
+};
+
+/// Cases whose verdict depends on case-insensitive matching are MUST (see assumptions). Set to false to make them DON'T-CARE.
+const CASE_FOLD_IS_MUST: bool = true;
+
+/// Which of several matching elements of an OR-list supplies the captures is left open by the statement
+/// (false: any matching element is admitted, such cases are DON'T-CARE). Set to true to demand okane's current
+/// behaviour, "the first matching element", as a MUST.
+const OR_FIRST_ELEMENT_WINS: bool = false;
+
+// =============================================================================================
+// Rule model shared by all families
+// =============================================================================================
+
+#[derive(Clone, Copy, PartialEq, Eq, Debug)]
+enum F {
+    Payee,
+    Category,
+    CreditorName,
+    DebtorName,
+    AddtlTxInfo,
+    AddtlEntryInfo,
+    DomainCode,
+    DomainFamily,
+    DomainSubFamily,
+}
+
+impl F {
+    fn yaml(self) -> &'static str {
+        match self {
+            F::Payee => "payee",
+            F::Category => "category",
+            F::CreditorName => "creditor_name",
+            F::DebtorName => "debtor_name",
+            F::AddtlTxInfo => "additional_transaction_info",
+            F::AddtlEntryInfo => "additional_entry_info",
+            F::DomainCode => "domain_code",
+            F::DomainFamily => "domain_family",
+            F::DomainSubFamily => "domain_sub_family",
+        }
+    }
+    fn cfg(self) -> config::RewriteField {
+        match self {
+            F::Payee => config::RewriteField::Payee,
+            F::Category => config::RewriteField::Category,
+            F::CreditorName => config::RewriteField::CreditorName,
+            F::DebtorName => config::RewriteField::DebtorName,
+            F::AddtlTxInfo => config::RewriteField::AdditionalTransactionInfo,
+            F::AddtlEntryInfo => config::RewriteField::AdditionalEntryInfo,
+            F::DomainCode => config::RewriteField::DomainCode,
+            F::DomainFamily => config::RewriteField::DomainFamily,
+            F::DomainSubFamily => config::RewriteField::DomainSubFamily,
+        }
+    }
+    /// Domain codes are constants compared for equality, everything else is a regular expression.
+    fn is_const(self) -> bool {
+        matches!(self, F::DomainCode | F::DomainFamily | F::DomainSubFamily)
+    }
+}
+
+type Elem = &'static [(F, &'static str)];
+
+struct RuleDef {
+    name: &'static str,
+    /// rendered as a YAML list of elements (OR-list) rather than a single map
+    or_list: bool,
+    elems: &'static [Elem],
+    pending: bool,
+    payee: Option<&'static str>,
+    account: Option<&'static str>,
+}
+
+fn has_group(pat: &str, name: &str) -> bool {
+    pat.contains(&format!("(?P<{}>", name))
+}
+
+/// Alphabet invariants that keep the reference unambiguous (see DEF.assumptions).
+fn check_alphabet(rules: &[RuleDef]) {
+    for r in rules {
+        assert!(!r.elems.is_empty(), "harness bug: rule {} has no element", r.name);
+        assert!(r.or_list || r.elems.len() == 1, "harness bug: rule {} map form with several elements", r.name);
+        for e in r.elems {
+            assert!(!e.is_empty(), "harness bug: rule {} empty element", r.name);
+            let payee_caps = e.iter().filter(|(f, p)| !f.is_const() && has_group(p, "payee")).count();
+            let code_caps = e.iter().filter(|(f, p)| !f.is_const() && has_group(p, "code")).count();
+            assert!(payee_caps <= 1 && code_caps <= 1, "harness bug: rule {} element captures twice", r.name);
+            let has_payee_field = e.iter().any(|(f, _)| *f == F::Payee);
+            let other_caps_payee = e.iter().any(|(f, p)| *f != F::Payee && !f.is_const() && has_group(p, "payee"));
+            assert!(!(has_payee_field && other_caps_payee), "harness bug: rule {} element is HashMap-order dependent", r.name);
+            assert!(!(r.payee.is_some() && payee_caps > 0), "harness bug: rule {} has payee: and a payee capture", r.name);
+            for (i, (f, _)) in e.iter().enumerate() {
+                assert!(e[..i].iter().all(|(g, _)| g != f), "harness bug: rule {} repeats a field", r.name);
+            }
+        }
+    }
+}
+
+/// The rule as an item of a YAML `rewrite:` list, indented by two spaces.
+fn rule_yaml(r: &RuleDef) -> String {
+    let mut s = String::new();
+    s.push_str("  - matcher:\n");
+    for e in r.elems {
+        for (i, (f, p)) in e.iter().enumerate() {
+            // single-quoted YAML scalars have no escapes (patterns contain no single quote)
+            if r.or_list {
+                s.push_str(&format!("      {} {}: '{}'\n", if i == 0 { "-" } else { " " }, f.yaml(), p));
+            } else {
+                s.push_str(&format!("      {}: '{}'\n", f.yaml(), p));
+            }
+        }
+    }
+    if r.pending {
+        s.push_str("    pending: true\n");
+    }
+    if let Some(p) = r.payee {
+        s.push_str(&format!("    payee: '{}'\n", p));
+    }
+    if let Some(a) = r.account {
+        s.push_str(&format!("    account: '{}'\n", a));
+    }
+    s
+}
+
+fn rewrite_yaml(rules: &[&RuleDef]) -> String {
+    if rules.is_empty() {
+        return "rewrite: []\n".to_string();
+    }
+    let mut s = String::from("rewrite:\n");
+    for r in rules {
+        s.push_str(&rule_yaml(r));
+    }
+    s
+}
+
+/// The rule as okane's own configuration value (all fields of these types are public).
+fn rule_cfg(r: &RuleDef) -> config::RewriteRule {
+    let fm = |e: &Elem| config::FieldMatcher { fields: e.iter().map(|(f, p)| (f.cfg(), p.to_string())).collect() };
+    config::RewriteRule {
+        matcher: if r.or_list { config::RewriteMatcher::Or(r.elems.iter().map(fm).collect()) } else { config::RewriteMatcher::Field(fm(&r.elems[0])) },
+        pending: r.pending,
+        payee: r.payee.map(str::to_string),
+        account: r.account.map(str::to_string),
+        conversion: None,
+    }
+}
+
+// =============================================================================================
+// Family A — configuration layering
+// =============================================================================================
+
+const A_PATHS: [&str; 5] = ["x", "card", "2024", "bank/", "bank/card"];
+const A_FILES: [&str; 4] = ["/data/bank/card/2024.csv", "/data/bank/2024.csv", "/data/card.csv", "/data/other.csv"];
+
+#[derive(Clone, Copy, PartialEq, Eq, PartialOrd, Ord, Debug)]
+enum Commodity {
+    Plain(&'static str),
+    Spec { primary: &'static str, disabled: bool },
+}
+
+#[derive(Clone, Copy, PartialEq, Eq, PartialOrd, Ord, Debug)]
+struct Fmt {
+    date: Option<&'static str>,
+    delimiter: Option<&'static str>,
+    skip_head: Option<i32>,
+}
+
+struct Body {
+    name: &'static str,
+    encoding: Option<&'static str>,
+    account: Option<&'static str>,
+    account_type: Option<&'static str>,
+    operator: Option<&'static str>,
+    commodity: Option<Commodity>,
+    format: Option<Fmt>,
+    rules: &'static [usize],
+}
+
+const A_RULES: [RuleDef; 3] = [
+    RuleDef { name: "ra", or_list: false, elems: &[&[(F::Payee, "foo")]], pending: false, payee: None, account: Some("Expenses:Foo") },
+    RuleDef { name: "rb", or_list: true, elems: &[&[(F::Payee, "bar")], &[(F::Category, "baz"), (F::Payee, "qux")]], pending: true, payee: Some("Bar Inc"), account: Some("Expenses:Bar") },
+    RuleDef { name: "rc", or_list: false, elems: &[&[(F::Payee, r"(?P<code>\d+) (?P<payee>.*)")]], pending: false, payee: None, account: None },
+];
+
+const A_BODIES: [Body; 8] = [
+    Body { name: "empty", encoding: None, account: None, account_type: None, operator: None, commodity: None, format: None, rules: &[] },
+    Body { name: "full1", encoding: Some("UTF-8"), account: Some("Assets:A1"), account_type: Some("asset"), operator: Some("Op1"), commodity: Some(Commodity::Plain("JPY")), format: Some(Fmt { date: Some("%Y/%m/%d"), delimiter: None, skip_head: None }), rules: &[] },
+    Body { name: "full2", encoding: Some("Shift_JIS"), account: Some("Liabilities:A2"), account_type: Some("liability"), operator: Some("Op2"), commodity: Some(Commodity::Spec { primary: "CHF", disabled: false }), format: Some(Fmt { date: Some("%d.%m.%Y"), delimiter: Some(";"), skip_head: None }), rules: &[0] },
+    Body { name: "acct3", encoding: None, account: Some("Assets:A3"), account_type: None, operator: None, commodity: None, format: None, rules: &[1, 2] },
+    Body { name: "base4", encoding: Some("UTF-8"), account: None, account_type: Some("asset"), operator: None, commodity: Some(Commodity::Plain("USD")), format: None, rules: &[0] },
+    Body { name: "fmt5", encoding: None, account: None, account_type: None, operator: Some("Op5"), commodity: Some(Commodity::Spec { primary: "EUR", disabled: true }), format: Some(Fmt { date: Some("%Y-%m-%d"), delimiter: None, skip_head: Some(1) }), rules: &[] },
+    Body { name: "liab6", encoding: None, account: Some("Liabilities:A6"), account_type: Some("liability"), operator: None, commodity: None, format: None, rules: &[1] },
+    Body { name: "rules7", encoding: None, account: None, account_type: None, operator: None, commodity: None, format: None, rules: &[2, 0] },
+];
+
+/// Reduced alphabet for the length-4 lists of the thorough tier.
+const A_PATHS_4: [usize; 4] = [1, 2, 3, 4];
+const A_BODIES_4: [usize; 5] = [1, 2, 3, 5, 7];
+
+#[derive(Clone, Copy, PartialEq, Eq, Debug)]
+struct Doc {
+    path: usize,
+    body: usize,
+}
+
+fn doc_yaml(d: Doc) -> String {
+    let b = &A_BODIES[d.body];
+    let mut s = format!("path: {}\n", A_PATHS[d.path]);
+    if let Some(v) = b.encoding {
+        s.push_str(&format!("encoding: {}\n", v));
+    }
+    if let Some(v) = b.account {
+        s.push_str(&format!("account: {}\n", v));
+    }
+    if let Some(v) = b.account_type {
+        s.push_str(&format!("account_type: {}\n", v));
+    }
+    if let Some(v) = b.operator {
+        s.push_str(&format!("operator: {}\n", v));
+    }
+    match b.commodity {
+        None => {}
+        Some(Commodity::Plain(c)) => s.push_str(&format!("commodity: {}\n", c)),
+        Some(Commodity::Spec { primary, disabled }) => {
+            s.push_str(&format!("commodity:\n  primary: {}\n", primary));
+            if disabled {
+                s.push_str("  conversion:\n    disabled: true\n");
+            }
+        }
+    }
+    if let Some(f) = b.format {
+        s.push_str("format:\n");
+        if let Some(v) = f.date {
+            s.push_str(&format!("  date: \"{}\"\n", v));
+        }
+        if let Some(v) = f.delimiter {
+            s.push_str(&format!("  delimiter: \"{}\"\n", v));
+        }
+        if let Some(v) = f.skip_head {
+            s.push_str(&format!("  skip:\n    head: {}\n", v));
+        }
+    }
+    if !b.rules.is_empty() {
+        let rs: Vec<&RuleDef> = b.rules.iter().map(|&i| &A_RULES[i]).collect();
+        s.push_str(&rewrite_yaml(&rs));
+    }
+    s
+}
+
+fn docs_yaml(docs: &[Doc]) -> String {
+    docs.iter().map(|d| doc_yaml(*d)).collect::<Vec<_>>().join("---\n")
+}
+
+#[derive(Clone, PartialEq, Eq, PartialOrd, Ord, Debug, Default)]
+struct Merged {
+    encoding: Option<&'static str>,
+    account: Option<&'static str>,
+    account_type: Option<&'static str>,
+    operator: Option<&'static str>,
+    commodity: Option<Commodity>,
+    format: Option<Fmt>,
+    rules: Vec<usize>,
+}
+
+/// Merge in the given order: later overrides scalars, rules are concatenated.
+/// `deep_format`: read "override" of the structured `format` setting per key instead of as a whole
+/// (the statement speaks of scalar settings only; doc/import.ja.md says "rewritten").
+fn merge(order: &[Doc], deep_format: bool) -> Merged {
+    let mut m = Merged::default();
+    for d in order {
+        let b = &A_BODIES[d.body];
+        m.encoding = b.encoding.or(m.encoding);
+        m.account = b.account.or(m.account);
+        m.account_type = b.account_type.or(m.account_type);
+        m.operator = b.operator.or(m.operator);
+        m.commodity = b.commodity.or(m.commodity);
+        m.format = match (m.format, b.format) {
+            (Some(old), Some(new)) if deep_format => Some(Fmt { date: new.date.or(old.date), delimiter: new.delimiter.or(old.delimiter), skip_head: new.skip_head.or(old.skip_head) }),
+            (old, new) => new.or(old),
+        };
+        m.rules.extend_from_slice(b.rules);
+    }
+    m
+}
+
+fn permutations(n: usize) -> Vec<Vec<usize>> {
+    fn go(n: usize, cur: &mut Vec<usize>, out: &mut Vec<Vec<usize>>) {
+        if cur.len() == n {
+            out.push(cur.clone());
+            return;
+        }
+        for i in 0..n {
+            if !cur.contains(&i) {
+                cur.push(i);
+                go(n, cur, out);
+                cur.pop();
+            }
+        }
+    }
+    let mut out = Vec::new();
+    go(n, &mut Vec::new(), &mut out);
+    out
+}
+
+struct SelectRef {
+    matching: Vec<Doc>,
+    /// every acceptable merge result (empty iff nothing matches)
+    accept: BTreeSet<Merged>,
+    tie: bool,
+    format_ambiguous: bool,
+}
+
+fn select_ref(docs: &[Doc], file: &str) -> SelectRef {
+    let matching: Vec<Doc> = docs.iter().copied().filter(|d| file.contains(A_PATHS[d.path])).collect();
+    let mut accept = BTreeSet::new();
+    let mut whole = BTreeSet::new();
+    if !matching.is_empty() {
+        for p in permutations(matching.len()) {
+            let order: Vec<Doc> = p.iter().map(|&i| matching[i]).collect();
+            // "shortest path first"; equal lengths: either order
+            if order.windows(2).any(|w| A_PATHS[w[0].path].len() > A_PATHS[w[1].path].len()) {
+                continue;
+            }
+            let m = merge(&order, false);
+            whole.insert(m.clone());
+            accept.insert(m);
+            accept.insert(merge(&order, true));
+        }
+    }
+    let tie = whole.len() > 1;
+    let format_ambiguous = accept.len() > whole.len();
+    SelectRef { matching, accept, tie, format_ambiguous }
+}
+
+fn complete(m: &Merged) -> bool {
+    m.encoding.is_some() && m.account.is_some() && m.account_type.is_some() && m.commodity.is_some()
+}
+
+/// First attribute in which the observed entry differs from the candidate, or None when they agree.
+fn entry_diff(m: &Merged, e: &config::ConfigEntry) -> Option<String> {
+    let enc = e.encoding.as_encoding().name();
+    if Some(enc) != m.encoding {
+        return Some(format!("encoding: got {} want {:?}", enc, m.encoding));
+    }
+    if Some(e.account.as_str()) != m.account {
+        return Some(format!("account: got {} want {:?}", e.account, m.account));
+    }
+    let at = match e.account_type {
+        config::AccountType::Asset => "asset",
+        config::AccountType::Liability => "liability",
+    };
+    if Some(at) != m.account_type {
+        return Some(format!("account_type: got {} want {:?}", at, m.account_type));
+    }
+    if e.operator.as_deref() != m.operator {
+        return Some(format!("operator: got {:?} want {:?}", e.operator, m.operator));
+    }
+    let want_c = match m.commodity {
+        Some(Commodity::Plain(c)) => config::AccountCommoditySpec { primary: c.to_string(), conversion: config::CommodityConversionSpec::default() },
+        Some(Commodity::Spec { primary, disabled }) => config::AccountCommoditySpec { primary: primary.to_string(), conversion: config::CommodityConversionSpec { disabled, ..Default::default() } },
+        None => return Some("commodity: reference has none".into()),
+    };
+    if e.commodity != want_c {
+        return Some(format!("commodity: got {:?} want {:?}", e.commodity, want_c));
+    }
+    let f = m.format.unwrap_or(Fmt { date: None, delimiter: None, skip_head: None });
+    let want_f = config::FormatSpec { date: f.date.unwrap_or("").to_string(), delimiter: f.delimiter.unwrap_or("").to_string(), skip: config::SkipSpec { head: f.skip_head.unwrap_or(0) }, ..Default::default() };
+    if e.format != want_f {
+        return Some(format!("format: got date={:?} delimiter={:?} skip={} want date={:?} delimiter={:?} skip={}", e.format.date, e.format.delimiter, e.format.skip.head, want_f.date, want_f.delimiter, want_f.skip.head));
+    }
+    let want_r: Vec<config::RewriteRule> = m.rules.iter().map(|&i| rule_cfg(&A_RULES[i])).collect();
+    if e.rewrite != want_r {
+        let names = |v: &Vec<config::RewriteRule>| -> Vec<String> {
+            v.iter().map(|r| A_RULES.iter().find(|d| rule_cfg(d) == *r).map(|d| d.name.to_string()).unwrap_or_else(|| "?".into())).collect()
+        };
+        return Some(format!("rewrite: got {:?} want {:?}", names(&e.rewrite), names(&want_r)));
+    }
+    None
+}
+
+fn attr_of(diff: &str) -> &str {
+    diff.split(':').next().unwrap_or("?")
+}
+
+fn judge_select(docs: &[Doc], file: &str) -> Outcome {
+    let yaml = docs_yaml(docs);
+    let set = match config::load_from_yaml(yaml.as_bytes()) {
+        Ok(s) => s,
+        Err(e) => panic!("harness bug: generated configuration does not load: {}\n{}", e, yaml),
+    };
+    let r = select_ref(docs, file);
+    let got = set.select(Path::new(file));
+    let n = r.matching.len();
+    if n == 0 {
+        return match got {
+            Ok(None) => Outcome::pass("A/match0/none"),
+            Err(_) => Outcome::pass("A/match0/error"),
+            Ok(Some(e)) => Outcome::violation("select/no-document-matches-but-selected", format!("no document's path occurs in {} but an entry (path {:?}) was selected", file, e.path)),
+        };
+    }
+    let any = r.accept.iter().next().expect("non-empty");
+    let nclass = if n >= 4 { "4".to_string() } else { n.to_string() };
+    if !complete(any) {
+        // doc/import.ja.md: encoding, account, account_type, commodity are required attributes
+        return match got {
+            Err(_) => Outcome::pass(format!("A/match{}/incomplete-rejected", nclass)),
+            Ok(None) => Outcome::violation("select/matching-documents-but-none", format!("{} document(s) match {} but select returned None", n, file)),
+            Ok(Some(_)) => Outcome::violation("select/incomplete-accepted", format!("merged configuration for {} lacks a required attribute but was accepted", file)),
+        };
+    }
+    let e = match got {
+        Ok(Some(e)) => e,
+        Ok(None) => return Outcome::violation("select/matching-documents-but-none", format!("{} document(s) match {} but select returned None", n, file)),
+        Err(err) => return Outcome::violation("select/complete-rejected", format!("merged configuration for {} is complete but select failed: {}", file, err)),
+    };
+    let mut first_diff: Option<String> = None;
+    let mut hit = false;
+    for m in &r.accept {
+        match entry_diff(m, &e) {
+            None => {
+                hit = true;
+                break;
+            }
+            Some(d) => {
+                if first_diff.is_none() {
+                    first_diff = Some(d);
+                }
+            }
+        }
+    }
+    if !hit {
+        let d = first_diff.unwrap_or_default();
+        let shape = if r.tie || r.format_ambiguous { "not-among-admitted-results" } else { "differs" };
+        return Outcome::violation(format!("select/merge-{}/{}", shape, attr_of(&d)), format!("file {}: matching documents {:?}; {}", file, r.matching.iter().map(|d| format!("{}@{}", A_BODIES[d.body].name, A_PATHS[d.path])).collect::<Vec<_>>(), d));
+    }
+    // shape of the case for the class histogram
+    let overrides = {
+        let mut k = 0;
+        let cnt = |f: &dyn Fn(&Body) -> bool| r.matching.iter().filter(|d| f(&A_BODIES[d.body])).count();
+        for c in [cnt(&|b| b.encoding.is_some()), cnt(&|b| b.account.is_some()), cnt(&|b| b.account_type.is_some()), cnt(&|b| b.operator.is_some()), cnt(&|b| b.commodity.is_some()), cnt(&|b| b.format.is_some())] {
+            if c >= 2 {
+                k += 1;
+            }
+        }
+        k
+    };
+    let rule_docs = r.matching.iter().filter(|d| !A_BODIES[d.body].rules.is_empty()).count();
+    let shape = format!("{}{}", if overrides > 0 { "override" } else { "disjoint" }, if rule_docs >= 2 { "+concat" } else { "" });
+    if r.accept.len() == 1 {
+        Outcome::pass(format!("A/match{}/{}", nclass, shape))
+    } else if r.tie {
+        Outcome::dont_care(format!("A/match{}/equal-length-tie", nclass))
+    } else {
+        Outcome::dont_care(format!("A/match{}/format-whole-vs-per-key", nclass))
+    }
+}
+
+// =============================================================================================
+// Family B — rule folding
+// =============================================================================================
+
+#[derive(Clone, Copy, PartialEq, Eq, Debug)]
+enum Veh {
+    Csv,
+    Viseca,
+    Camt,
+}
+
+impl Veh {
+    fn name(self) -> &'static str {
+        match self {
+            Veh::Csv => "csv",
+            Veh::Viseca => "viseca",
+            Veh::Camt => "camt053",
+        }
+    }
+    fn format(self) -> import::Format {
+        match self {
+            Veh::Csv => import::Format::Csv,
+            Veh::Viseca => import::Format::Viseca,
+            Veh::Camt => import::Format::IsoCamt053,
+        }
+    }
+    fn file(self) -> &'static str {
+        match self {
+            Veh::Csv => "/data/stmt/in.csv",
+            Veh::Viseca => "/data/stmt/in.txt",
+            Veh::Camt => "/data/stmt/in.xml",
+        }
+    }
+}
+
+const SRC_ACCOUNT: &str = "Assets:Bank";
+
+/// Rule alphabet for the importers whose records have a payee and a category (CSV, Viseca).
+const PC_RULES: [RuleDef; 12] = [
+    // captures payee and code from the head; no account
+    RuleDef { name: "cap-head", or_list: false, elems: &[&[(F::Payee, r"^CARD (?P<code>\d+) (?P<payee>.*)$")]], pending: false, payee: None, account: None },
+    // captures payee and code from the tail; no account
+    RuleDef { name: "cap-tail", or_list: false, elems: &[&[(F::Payee, r"^(?P<payee>.*) (?P<code>\d+)$")]], pending: false, payee: None, account: None },
+    // literal differing only in case from the record ("Migros"), unanchored
+    RuleDef { name: "lit-case", or_list: false, elems: &[&[(F::Payee, "migros")]], pending: false, payee: None, account: Some("Expenses:Grocery") },
+    // anchored: matches only the payee as rewritten by cap-head / set-payee; pending
+    RuleDef { name: "anchored-pending", or_list: false, elems: &[&[(F::Payee, "^Migros")]], pending: true, payee: None, account: Some("Expenses:Migros") },
+    // category matcher
+    RuleDef { name: "category", or_list: false, elems: &[&[(F::Category, "food")]], pending: false, payee: None, account: Some("Expenses:Food") },
+    // two-field AND element
+    RuleDef { name: "and", or_list: false, elems: &[&[(F::Payee, "coop"), (F::Category, "transfer")]], pending: false, payee: None, account: Some("Assets:Wire") },
+    // OR-list of two elements; pending
+    RuleDef { name: "or-pending", or_list: true, elems: &[&[(F::Payee, "coop")], &[(F::Payee, "zurich")]], pending: true, payee: None, account: Some("Expenses:Shop") },
+    // explicit payee replacement; no account
+    RuleDef { name: "set-payee", or_list: false, elems: &[&[(F::Payee, "zurich")]], pending: false, payee: Some("Migros Genossenschaft"), account: None },
+    // catch-all, pending
+    RuleDef { name: "any-pending", or_list: false, elems: &[&[(F::Payee, ".")]], pending: true, payee: None, account: Some("Expenses:Misc") },
+    // pending flag on a rule that assigns no account
+    RuleDef { name: "noacct-pending", or_list: false, elems: &[&[(F::Category, "transfer")]], pending: true, payee: None, account: None },
+    // OR-list whose first element captures (both elements can match one record => captures left open by the statement)
+    RuleDef { name: "or-capture", or_list: true, elems: &[&[(F::Payee, r"^coop (?P<payee>.+)$")], &[(F::Category, "food")]], pending: false, payee: None, account: Some("Expenses:Coop") },
+    // capture together with an account
+    RuleDef { name: "cap-account", or_list: false, elems: &[&[(F::Payee, r"^salary (?P<payee>.+)$")]], pending: false, payee: None, account: Some("Income:Salary") },
+];
+
+const PC_PAYEES: [&str; 3] = ["CARD 1234 Migros Zurich 88", "coop city", "Salary ACME"];
+const PC_CATEGORIES: [&str; 2] = ["Food", "Transfer"];
+
+/// Rule alphabet for ISO Camt053.
+const CAMT_RULES: [RuleDef; 9] = [
+    RuleDef { name: "txinfo-cap", or_list: false, elems: &[&[(F::AddtlTxInfo, r"^Maestro (?P<code>\d+) (?P<payee>.*)$")]], pending: false, payee: None, account: None },
+    RuleDef { name: "creditor-cap", or_list: false, elems: &[&[(F::CreditorName, r"^(?P<payee>.+)$"), (F::DomainFamily, "ICDT")]], pending: false, payee: None, account: None },
+    RuleDef { name: "debtor-cap", or_list: false, elems: &[&[(F::DebtorName, r"^(?P<payee>.+)$"), (F::DomainFamily, "RCDT")]], pending: false, payee: None, account: None },
+    RuleDef { name: "domain-salary", or_list: false, elems: &[&[(F::DomainCode, "PMNT"), (F::DomainFamily, "RCDT"), (F::DomainSubFamily, "SALA")]], pending: false, payee: Some("ACME Corp"), account: Some("Income:Salary") },
+    RuleDef { name: "payee-lit-case", or_list: false, elems: &[&[(F::Payee, "migros")]], pending: false, payee: None, account: Some("Expenses:Grocery") },
+    RuleDef { name: "or-pending", or_list: true, elems: &[&[(F::Payee, "^acme")], &[(F::CreditorName, "migros")]], pending: true, payee: None, account: Some("Expenses:Shop") },
+    RuleDef { name: "entryinfo-pending", or_list: false, elems: &[&[(F::AddtlEntryInfo, "fee")]], pending: true, payee: Some("Okane Bank"), account: Some("Expenses:Fee") },
+    RuleDef { name: "any-payee-pending", or_list: false, elems: &[&[(F::Payee, ".")]], pending: true, payee: None, account: Some("Expenses:Misc") },
+    RuleDef { name: "anchored", or_list: false, elems: &[&[(F::Payee, "^Migros Z")]], pending: false, payee: None, account: Some("Expenses:Migros") },
+];
+
+#[derive(Clone, Debug)]
+struct Rec {
+    /// payee before any rule (None for camt053)
+    payee: Option<&'static str>,
+    fields: Vec<(F, &'static str)>,
+    credit: bool,
+    /// camt053: record carries an AcctSvcrRef (becomes the code; not judged)
+    acct_ref: bool,
+    /// camt053: entry without transaction details
+    no_details: bool,
+}
+
+impl Rec {
+    fn field(&self, f: F) -> Option<&'static str> {
+        self.fields.iter().find(|(g, _)| *g == f).map(|(_, v)| *v)
+    }
+}
+
+fn pc_records() -> Vec<Rec> {
+    let mut v = Vec::new();
+    for credit in [false, true] {
+        for c in PC_CATEGORIES {
+            for p in PC_PAYEES {
+                v.push(Rec { payee: Some(p), fields: vec![(F::Category, c)], credit, acct_ref: false, no_details: false });
+            }
+        }
+    }
+    v
+}
+
+fn camt_records() -> Vec<Rec> {
+    let dom = |fam: &'static str, sub: &'static str| vec![(F::DomainCode, "PMNT"), (F::DomainFamily, fam), (F::DomainSubFamily, sub)];
+    let mut v = Vec::new();
+    // card payment to a shop
+    for acct_ref in [false, true] {
+        let mut f = dom("ICDT", "OTHR");
+        f.extend([(F::CreditorName, "Migros Zurich"), (F::DebtorName, "Taro Yamada"), (F::AddtlTxInfo, "Maestro 1234 Migros Zurich"), (F::AddtlEntryInfo, "Card payment")]);
+        v.push(Rec { payee: None, fields: f, credit: false, acct_ref, no_details: false });
+    }
+    // salary
+    for acct_ref in [false, true] {
+        let mut f = dom("RCDT", "SALA");
+        f.extend([(F::CreditorName, "Taro Yamada"), (F::DebtorName, "ACME Corp"), (F::AddtlTxInfo, "Salary October"), (F::AddtlEntryInfo, "Credit transfer")]);
+        v.push(Rec { payee: None, fields: f, credit: true, acct_ref, no_details: false });
+    }
+    // transfer to a private person, no additional transaction info
+    {
+        let mut f = dom("ICDT", "AUTT");
+        f.extend([(F::CreditorName, "Hanako Migros"), (F::DebtorName, "Taro Yamada"), (F::AddtlEntryInfo, "Standing order")]);
+        v.push(Rec { payee: None, fields: f, credit: false, acct_ref: false, no_details: false });
+    }
+    // bank fee: entry without transaction details
+    {
+        let mut f = dom("RDDT", "OTHR");
+        f.extend([(F::AddtlEntryInfo, "Account fee")]);
+        v.push(Rec { payee: None, fields: f, credit: false, acct_ref: false, no_details: true });
+    }
+    // refund from the shop (credit)
+    {
+        let mut f = dom("RCDT", "OTHR");
+        f.extend([(F::CreditorName, "Taro Yamada"), (F::DebtorName, "migros zurich"), (F::AddtlTxInfo, "Refund"), (F::AddtlEntryInfo, "Credit transfer")]);
+        v.push(Rec { payee: None, fields: f, credit: true, acct_ref: false, no_details: false });
+    }
+    v
+}
+
+fn base_config(veh: Veh, path: &str) -> String {
+    match veh {
+        Veh::Csv => format!("path: {}\nencoding: UTF-8\naccount: {}\naccount_type: asset\ncommodity: JPY\nformat:\n  date: \"%Y/%m/%d\"\n  fields:\n    date: 1\n    payee: 2\n    category: 3\n    amount: 4\n", path, SRC_ACCOUNT),
+        Veh::Viseca => format!("path: {}\nencoding: UTF-8\naccount: {}\naccount_type: liability\ncommodity: CHF\n", path, SRC_ACCOUNT),
+        Veh::Camt => format!("path: {}\nencoding: UTF-8\naccount: {}\naccount_type: asset\ncommodity: CHF\n", path, SRC_ACCOUNT),
+    }
+}
+
+fn xml_escape(s: &str) -> String {
+    s.replace('&', "&amp;").replace('<', "&lt;").replace('>', "&gt;")
+}
+
+fn source_text(veh: Veh, rec: &Rec) -> String {
+    match veh {
+        Veh::Csv => format!("date,payee,category,amount\n2024/01/05,{},{},{}\n", rec.payee.unwrap(), rec.field(F::Category).unwrap(), if rec.credit { "100" } else { "-100" }),
+        // amounts on a card statement are expenses unless followed by " -"
+        Veh::Viseca => format!("05.01.24 05.01.24 {} 100.00{}\n{}\n", rec.payee.unwrap(), if rec.credit { " -" } else { "" }, rec.field(F::Category).unwrap()),
+        Veh::Camt => {
+            let ind = if rec.credit { "CRDT" } else { "DBIT" };
+            let mut s = String::from("<?xml version=\"1.0\" encoding=\"UTF-8\"?>\n<Document><BkToCstmrStmt><Stmt>\n");
+            s.push_str("<Bal><Tp><CdOrPrtry><Cd>CLBD</Cd></CdOrPrtry></Tp><Amt Ccy=\"CHF\">1000</Amt><CdtDbtInd>CRDT</CdtDbtInd></Bal>\n");
+            s.push_str(&format!("<Ntry><Amt Ccy=\"CHF\">100</Amt><CdtDbtInd>{}</CdtDbtInd><BookgDt><Dt>2024-01-05</Dt></BookgDt><ValDt><Dt>2024-01-05</Dt></ValDt>\n", ind));
+            s.push_str(&format!("<BkTxCd><Domn><Cd>{}</Cd><Fmly><Cd>{}</Cd><SubFmlyCd>{}</SubFmlyCd></Fmly></Domn></BkTxCd>\n", rec.field(F::DomainCode).unwrap(), rec.field(F::DomainFamily).unwrap(), rec.field(F::DomainSubFamily).unwrap()));
+            if !rec.no_details {
+                s.push_str("<NtryDtls><Btch><NbOfTxs>1</NbOfTxs></Btch><TxDtls><Refs>");
+                if rec.acct_ref {
+                    s.push_str("<AcctSvcrRef>REF-1</AcctSvcrRef>");
+                }
+                s.push_str("<EndToEndId>NOTPROVIDED</EndToEndId></Refs>");
+                s.push_str(&format!("<Amt Ccy=\"CHF\">100</Amt><CdtDbtInd>{}</CdtDbtInd>\n<RltdPties>", ind));
+                if let Some(d) = rec.field(F::DebtorName) {
+                    s.push_str(&format!("<Dbtr><Nm>{}</Nm></Dbtr>", xml_escape(d)));
+                }
+                if let Some(c) = rec.field(F::CreditorName) {
+                    s.push_str(&format!("<Cdtr><Nm>{}</Nm></Cdtr>", xml_escape(c)));
+                }
+                s.push_str("</RltdPties>");
+                if let Some(i) = rec.field(F::AddtlTxInfo) {
+                    s.push_str(&format!("<AddtlTxInf>{}</AddtlTxInf>", xml_escape(i)));
+                }
+                s.push_str("</TxDtls></NtryDtls>\n");
+            }
+            s.push_str(&format!("<AddtlNtryInf>{}</AddtlNtryInf></Ntry>\n</Stmt></BkToCstmrStmt></Document>\n", xml_escape(rec.field(F::AddtlEntryInfo).unwrap())));
+            s
+        }
+    }
+}
+
+// ---------------------------------------------------------------------------------------------
+// reference fold
+// ---------------------------------------------------------------------------------------------
+
+thread_local! {
+    static RE_CACHE: RefCell<HashMap<(String, bool), regex::Regex>> = RefCell::new(HashMap::new());
+}
+
+fn re(pat: &str, ci: bool) -> regex::Regex {
+    RE_CACHE.with(|c| {
+        c.borrow_mut()
+            .entry((pat.to_string(), ci))
+            .or_insert_with(|| regex::RegexBuilder::new(pat).case_insensitive(ci).build().unwrap_or_else(|e| panic!("harness bug: bad pattern {}: {}", pat, e)))
+            .clone()
+    })
+}
+
+#[derive(Clone, PartialEq, Eq, PartialOrd, Ord, Debug, Default)]
+struct St {
+    payee: Option<String>,
+    code: Option<String>,
+    account: Option<String>,
+    /// some matching account-assigning rule is not flagged pending
+    cleared: bool,
+}
+
+#[derive(Clone, Copy)]
+struct Sem {
+    case_insensitive: bool,
+    /// payee matchers see the payee as rewritten by earlier rules (false: always the original) — only used to
+    /// measure how many cases depend on threading
+    threaded: bool,
+}
+
+/// Does the element match, and with which (payee, code) captures?
+fn elem_match(e: Elem, rec: &Rec, cur_payee: Option<&str>, sem: Sem) -> Option<(Option<String>, Option<String>)> {
+    let mut cap_p = None;
+    let mut cap_c = None;
+    for (f, pat) in e.iter() {
+        if f.is_const() {
+            if rec.field(*f) != Some(*pat) {
+                return None;
+            }
+            continue;
+        }
+        let target = if *f == F::Payee { cur_payee } else { rec.field(*f) }?;
+        let caps = re(pat, sem.case_insensitive).captures(target)?;
+        if let Some(m) = caps.name("payee") {
+            assert!(!m.as_str().is_empty(), "harness bug: empty payee capture");
+            cap_p = Some(m.as_str().to_string());
+        }
+        if let Some(m) = caps.name("code") {
+            assert!(!m.as_str().is_empty(), "harness bug: empty code capture");
+            cap_c = Some(m.as_str().to_string());
+        }
+    }
+    Some((cap_p, cap_c))
+}
+
+#[derive(Default, Clone, Copy)]
+struct FoldInfo {
+    matched_rules: usize,
+    account_rules: usize,
+    or_ambiguous: bool,
+}
+
+/// The documented fold; returns every admissible final state.
+fn fold_ref(rules: &[&RuleDef], rec: &Rec, sem: Sem) -> (BTreeSet<St>, FoldInfo) {
+    let mut states: BTreeSet<St> = BTreeSet::new();
+    states.insert(St::default());
+    let mut info = FoldInfo::default();
+    for r in rules {
+        let mut next = BTreeSet::new();
+        let mut any_match = false;
+        for st in &states {
+            let cur: Option<&str> = if sem.threaded { st.payee.as_deref().or(rec.payee) } else { rec.payee };
+            // an OR-list matches if any element does; which matching element supplies the captures is left open
+            let mut outcomes: BTreeSet<(Option<String>, Option<String>)> = r.elems.iter().filter_map(|e| elem_match(e, rec, cur, sem)).collect();
+            if OR_FIRST_ELEMENT_WINS {
+                outcomes = r.elems.iter().filter_map(|e| elem_match(e, rec, cur, sem)).take(1).collect();
+            }
+            if outcomes.is_empty() {
+                next.insert(st.clone());
+                continue;
+            }
+            any_match = true;
+            if outcomes.len() > 1 {
+                info.or_ambiguous = true;
+            }
+            for (cp, cc) in outcomes {
+                let mut n = st.clone();
+                // captures set payee and code; an explicit `payee:` sets the payee (never both, see check_alphabet)
+                if let Some(p) = r.payee.map(str::to_string).or(cp) {
+                    n.payee = Some(p);
+                }
+                if let Some(c) = cc {
+                    n.code = Some(c);
+                }
+                if let Some(a) = r.account {
+                    n.account = Some(a.to_string());
+                    if !r.pending {
+                        n.cleared = true;
+                    }
+                }
+                next.insert(n);
+            }
+        }
+        if any_match {
+            info.matched_rules += 1;
+            if r.account.is_some() {
+                info.account_rules += 1;
+            }
+        }
+        states = next;
+    }
+    (states, info)
+}
+
+// ---------------------------------------------------------------------------------------------
+// observation: the printed transaction
+// ---------------------------------------------------------------------------------------------
+
+#[derive(Debug, Clone, PartialEq, Eq)]
+struct Printed {
+    payee: String,
+    code: Option<String>,
+    /// (account, marked pending) of every posting except commissions, in printed order
+    posts: Vec<(String, bool)>,
+}
+
+/// Parse one printed transaction: `DATE[=DATE] * [(CODE) ]PAYEE` and posting lines `    [! ]ACCOUNT  AMOUNT`.
+fn parse_printed(text: &str) -> Result<Printed, String> {
+    let mut lines = text.lines().filter(|l| !l.trim().is_empty());
+    let head = lines.next().ok_or("no header line")?;
+    let (_, rest) = head.split_once(" * ").ok_or_else(|| format!("header without ' * ': {:?}", head))?;
+    let (code, payee) = if let Some(r) = rest.strip_prefix('(') {
+        let (c, p) = r.split_once(") ").ok_or_else(|| format!("unterminated code: {:?}", head))?;
+        (Some(c.to_string()), p.to_string())
+    } else {
+        (None, rest.to_string())
+    };
+    let mut posts = Vec::new();
+    for l in lines {
+        let t = l.trim_start();
+        if t.starts_with(';') {
+            continue;
+        }
+        if !l.starts_with(' ') {
+            return Err(format!("unexpected line {:?} (more than one transaction?)", l));
+        }
+        let (pending, t) = match t.strip_prefix("! ") {
+            Some(r) => (true, r),
+            None => (false, t),
+        };
+        let account = t.split("  ").next().unwrap_or(t).trim().to_string();
+        if account != "Expenses:Commissions" {
+            posts.push((account, pending));
+        }
+    }
+    Ok(Printed { payee, code, posts })
+}
+
+/// The body of `ImportCmd::run` on in-memory inputs: load, select, import, convert, print.
+fn run_import(yaml: &str, file: &str, fmt: import::Format, source: &str) -> Result<Vec<String>, String> {
+    let set = config::load_from_yaml(yaml.as_bytes()).map_err(|e| format!("load_from_yaml: {}", e))?;
+    let entry = set.select(Path::new(file)).map_err(|e| format!("select: {}", e))?.ok_or("select: no entry")?;
+    let txns = import::import(source.as_bytes(), fmt, &entry).map_err(|e| format!("import: {}", e))?;
+    let ctx = DisplayContext::default();
+    let mut out = Vec::new();
+    for t in &txns {
+        let de = t.to_double_entry(&entry.account).map_err(|e| format!("to_double_entry: {}", e))?;
+        out.push(format!("{}", ctx.as_display(&de)));
+    }
+    Ok(out)
+}
+
+struct Judged {
+    outcome: Outcome,
+    thread_dependent: bool,
+    case_dependent: bool,
+    or_ambiguous: bool,
+    override_seen: bool,
+}
+
+/// Compare a printed transaction with the reference fold of `rules` over `rec`.
+fn judge_fold(tag: &str, veh: Veh, rules: &[&RuleDef], rec: &Rec, printed: &Printed, src_account: &str) -> Judged {
+    let sem = Sem { case_insensitive: true, threaded: true };
+    let (accept, info) = fold_ref(rules, rec, sem);
+    let (unthreaded, _) = fold_ref(rules, rec, Sem { threaded: false, ..sem });
+    let (case_sensitive, _) = fold_ref(rules, rec, Sem { case_insensitive: false, ..sem });
+    let thread_dependent = unthreaded != accept;
+    let case_dependent = case_sensitive != accept;
+    let mk = |outcome: Outcome| Judged { outcome, thread_dependent, case_dependent, or_ambiguous: info.or_ambiguous, override_seen: info.account_rules >= 2 };
+
+    // the posting to the configured account, and the counter-posting
+    if printed.posts.len() != 2 {
+        return mk(Outcome::violation(format!("{}/{}/posting-count", tag, veh.name()), format!("expected the account posting and one counter-posting, printed {:?}", printed.posts)));
+    }
+    let own = printed.posts.iter().position(|(a, _)| a == src_account);
+    let (counter_account, counter_pending) = match own {
+        Some(i) => printed.posts[1 - i].clone(),
+        None => return mk(Outcome::violation(format!("{}/{}/own-account-differs", tag, veh.name()), format!("no posting to the configured account {}: printed {:?}", src_account, printed.posts))),
+    };
+    let unknown = if rec.credit { "Income:Unknown" } else { "Expenses:Unknown" };
+    // (attribute, expected, observed) of the first difference against one admitted state
+    let diff = |st: &St| -> Option<(&'static str, String, String)> {
+        let want_payee = st.payee.as_deref().or(rec.payee);
+        if let Some(p) = want_payee {
+            if printed.payee != p {
+                return Some(("payee", p.to_string(), printed.payee.clone()));
+            }
+        }
+        if !rec.acct_ref && printed.code != st.code {
+            return Some(("code", format!("{:?}", st.code), format!("{:?}", printed.code)));
+        }
+        let want_acct = st.account.as_deref().unwrap_or(unknown);
+        if counter_account != want_acct {
+            return Some(("account", want_acct.to_string(), counter_account.clone()));
+        }
+        if counter_pending == st.cleared {
+            return Some(("pending", format!("pending={}", !st.cleared), format!("pending={}", counter_pending)));
+        }
+        None
+    };
+    // among the admitted states, report against the one that agrees on the longest prefix of (payee, code, account, pending)
+    let rank = |a: &str| match a {
+        "payee" => 0,
+        "code" => 1,
+        "account" => 2,
+        _ => 3,
+    };
+    let mut first: Option<(&'static str, String, String, St)> = None;
+    let mut hit = false;
+    for st in &accept {
+        match diff(st) {
+            None => {
+                hit = true;
+                break;
+            }
+            Some((a, w, g)) => {
+                if first.as_ref().map_or(true, |f| rank(f.0) < rank(a)) {
+                    first = Some((a, w, g, st.clone()));
+                }
+            }
+        }
+    }
+    if !hit {
+        let (attr, want, got, st) = first.expect("accept set is never empty");
+        let shape = match attr {
+            "payee" => {
+                if st.payee.is_none() {
+                    "want-original"
+                } else if thread_dependent {
+                    "want-rewritten/threading"
+                } else {
+                    "want-rewritten"
+                }
+            }
+            "code" => {
+                if st.code.is_some() && printed.code.is_none() {
+                    "capture-dropped"
+                } else if st.code.is_none() {
+                    "unexpected"
+                } else {
+                    "wrong-capture"
+                }
+            }
+            "account" => {
+                if st.account.is_none() {
+                    "want-unknown"
+                } else if counter_account.ends_with(":Unknown") {
+                    "rule-account-missing"
+                } else if info.account_rules >= 2 {
+                    "want-last-matching-rule"
+                } else {
+                    "want-rule-account"
+                }
+            }
+            _ => {
+                if st.cleared {
+                    "want-not-pending"
+                } else {
+                    "want-pending"
+                }
+            }
+        };
+        let amb = if accept.len() > 1 { " (no admitted result matches)" } else { "" };
+        return mk(Outcome::violation(format!("{}/{}/{}/{}", tag, veh.name(), attr, shape), format!("{}: expected {} but printed {}{}; rules [{}]", attr, want, got, amb, rules.iter().map(|r| r.name).collect::<Vec<_>>().join(", "))));
+    }
+    let st = accept.iter().next().unwrap();
+    let class = format!(
+        "{}/{}/m{}/{}/{}",
+        tag,
+        veh.name(),
+        match info.matched_rules {
+            0 => "0",
+            1 => "1",
+            _ => "2+",
+        },
+        match info.account_rules {
+            0 => "unknown",
+            1 => "one-account",
+            _ => "account-overridden",
+        },
+        if st.cleared { "cleared" } else { "pending" }
+    );
+    if accept.len() > 1 {
+        return mk(Outcome::dont_care(format!("{}/{}/or-capture-left-open", tag, veh.name())));
+    }
+    if case_dependent && !CASE_FOLD_IS_MUST {
+        return mk(Outcome::dont_care(format!("{}/{}/case-fold-dependent", tag, veh.name())));
+    }
+    mk(Outcome::pass(class))
+}
+
+/// The admitted results, for case descriptions.
+fn admitted(rules: &[&RuleDef], rec: &Rec) -> String {
+    let (accept, _) = fold_ref(rules, rec, Sem { case_insensitive: true, threaded: true });
+    let unknown = if rec.credit { "Income:Unknown" } else { "Expenses:Unknown" };
+    accept
+        .iter()
+        .map(|st| format!("payee={:?} code={:?} counter-account={} pending={}", st.payee.as_deref().or(rec.payee), st.code, st.account.as_deref().unwrap_or(unknown), !st.cleared))
+        .collect::<Vec<_>>()
+        .join(" | ")
+}
+
+fn fold_case(ctx: &mut Ctx, veh: Veh, rules: &[&RuleDef], rec: &Rec) {
+    let path = "stmt/";
+    let mut flags = (false, false, false, false);
+    let fl = &mut flags;
+    ctx.case(
+        || format!("[B {}] configuration:\n{}{}source {}:\n{}reference admits: {}", veh.name(), base_config(veh, path), rewrite_yaml(rules), veh.file(), source_text(veh, rec), admitted(rules, rec)),
+        || {
+            let yaml = format!("{}{}", base_config(veh, path), rewrite_yaml(rules));
+            let src = source_text(veh, rec);
+            let out = match run_import(&yaml, veh.file(), veh.format(), &src) {
+                Ok(o) => o,
+                Err(e) => return Outcome::violation(format!("fold/{}/import-failed", veh.name()), e),
+            };
+            if out.len() != 1 {
+                return Outcome::violation(format!("fold/{}/transaction-count", veh.name()), format!("one record produced {} transactions", out.len()));
+            }
+            let printed = match parse_printed(&out[0]) {
+                Ok(p) => p,
+                Err(e) => return Outcome::violation(format!("fold/{}/unreadable-output", veh.name()), e),
+            };
+            let j = judge_fold("fold", veh, rules, rec, &printed, SRC_ACCOUNT);
+            *fl = (j.thread_dependent, j.case_dependent, j.or_ambiguous, j.override_seen);
+            j.outcome
+        },
+    );
+    if flags.0 {
+        ctx.count("fold_cases_depending_on_payee_threading", 1);
+    }
+    if flags.1 {
+        ctx.count("fold_cases_depending_on_case_folding", 1);
+    }
+    if flags.2 {
+        ctx.count("fold_cases_with_several_matching_or_elements_capturing_differently", 1);
+    }
+    if flags.3 {
+        ctx.count("fold_cases_with_account_override", 1);
+    }
+}
+
+/// Every sequence of length minlen..=maxlen over 0..n, shortest first, lexicographic.
+fn for_each_seq(n: usize, minlen: usize, maxlen: usize, f: &mut dyn FnMut(&[usize])) {
+    for len in minlen..=maxlen {
+        let total = n.pow(len as u32);
+        let mut idx = vec![0usize; len];
+        for k in 0..total {
+            let mut r = k;
+            for i in (0..len).rev() {
+                idx[i] = r % n;
+                r /= n;
+            }
+            f(&idx);
+        }
+    }
+}
+
+// =============================================================================================
+// Family C — end to end through ImportCmd::run on real files
+// =============================================================================================
+
+fn e2e_case(ctx: &mut Ctx, dir: &Path, x: &'static RuleDef, y: &'static RuleDef, long_first: bool, rec: &Rec) {
+    // scalars split over the two layers; the short document's account must be overridden by the long one's
+    let short = format!("path: bank/\nencoding: UTF-8\naccount: Assets:Overridden\naccount_type: asset\ncommodity: JPY\nformat:\n  date: \"%Y/%m/%d\"\n  fields:\n    date: 1\n    payee: 2\n    category: 3\n    amount: 4\n{}", rewrite_yaml(&[x]));
+    let long = format!("path: bank/acct\naccount: {}\n{}", SRC_ACCOUNT, rewrite_yaml(&[y]));
+    let yaml = if long_first { format!("{}---\n{}", long, short) } else { format!("{}---\n{}", short, long) };
+    let src = source_text(Veh::Csv, rec);
+    ctx.case(
+        || format!("[C ImportCmd] config.yml:\n{}bank/acct/in.csv:\n{}reference admits: {}", yaml, src, admitted(&[x, y], rec)),
+        || {
+            let cfg = dir.join("config.yml");
+            let srcp = dir.join("bank").join("acct").join("in.csv");
+            std::fs::create_dir_all(srcp.parent().unwrap()).expect("scratch");
+            std::fs::write(&cfg, &yaml).expect("scratch");
+            std::fs::write(&srcp, &src).expect("scratch");
+            let mut buf: Vec<u8> = Vec::new();
+            let cmd = okane::cmd::ImportCmd { config: cfg, source: srcp };
+            if let Err(e) = cmd.run(&mut buf) {
+                return Outcome::violation("e2e/import-failed", format!("{}", e));
+            }
+            let text = String::from_utf8_lossy(&buf).to_string();
+            let printed = match parse_printed(&text) {
+                Ok(p) => p,
+                Err(e) => return Outcome::violation("e2e/unreadable-output", e),
+            };
+            // rules of the shorter path first, whatever the document order
+            judge_fold("e2e", Veh::Csv, &[x, y], rec, &printed, SRC_ACCOUNT).outcome
+        },
+    );
+}
+
+// =============================================================================================
+
+fn run(ctx: &mut Ctx) {
+    check_alphabet(&A_RULES);
+    check_alphabet(&PC_RULES);
+    check_alphabet(&CAMT_RULES);
+
+    // ---------------- family A ----------------
+    let all_docs: Vec<Doc> = (0..A_PATHS.len()).flat_map(|p| (0..A_BODIES.len()).map(move |b| Doc { path: p, body: b })).collect();
+    let mut a_cases = 0u64;
+    // an empty configuration file does not load at all (serde_yaml yields one null document), so lists start at 1
+    for_each_seq(all_docs.len(), 1, 3, &mut |idx| {
+        for file in A_FILES {
+            a_cases += 1;
+            if !ctx.next_is_mine() {
+                ctx.skip_cases(1);
+                continue;
+            }
+            let docs: Vec<Doc> = idx.iter().map(|&i| all_docs[i]).collect();
+            ctx.case(|| format!("[A] select({})\n{}", file, docs_yaml(&docs)), || judge_select(&docs, file));
+        }
+    });
+    if ctx.tier.pick(false, true) {
+        let red: Vec<Doc> = A_PATHS_4.iter().flat_map(|&p| A_BODIES_4.iter().map(move |&b| Doc { path: p, body: b })).collect();
+        let n = red.len();
+        for k in 0..n.pow(4) {
+            let idx = [k / (n * n * n), (k / (n * n)) % n, (k / n) % n, k % n];
+            for file in A_FILES {
+                a_cases += 1;
+                if !ctx.next_is_mine() {
+                    ctx.skip_cases(1);
+                    continue;
+                }
+                let docs: Vec<Doc> = idx.iter().map(|&i| red[i]).collect();
+                ctx.case(|| format!("[A] select({})\n{}", file, docs_yaml(&docs)), || judge_select(&docs, file));
+            }
+        }
+    }
+    ctx.fact("A_document_alphabet", all_docs.len() as u64);
+    ctx.fact("A_cases", a_cases);
+
+    // ---------------- family B ----------------
+    let maxlen = ctx.tier.pick(3usize, 4usize);
+    let pc = pc_records();
+    let camt = camt_records();
+    let mut b_cases = 0u64;
+    for veh in [Veh::Csv, Veh::Viseca] {
+        for_each_seq(PC_RULES.len(), 0, maxlen, &mut |idx| {
+            let rules: Vec<&RuleDef> = idx.iter().map(|&i| &PC_RULES[i]).collect();
+            for rec in &pc {
+                b_cases += 1;
+                if !ctx.next_is_mine() {
+                    ctx.skip_cases(1);
+                    continue;
+                }
+                fold_case(ctx, veh, &rules, rec);
+            }
+        });
+    }
+    for_each_seq(CAMT_RULES.len(), 0, maxlen, &mut |idx| {
+        let rules: Vec<&RuleDef> = idx.iter().map(|&i| &CAMT_RULES[i]).collect();
+        for rec in &camt {
+            b_cases += 1;
+            if !ctx.next_is_mine() {
+                ctx.skip_cases(1);
+                continue;
+            }
+            fold_case(ctx, Veh::Camt, &rules, rec);
+        }
+    });
+    ctx.fact("B_max_rule_list_length", maxlen as u64);
+    ctx.fact("B_cases", b_cases);
+
+    // ---------------- family C ----------------
+    let mut dir: Option<PathBuf> = None;
+    let e2e_recs: Vec<Rec> = pc.iter().filter(|r| (r.field(F::Category) == Some("Food")) != r.credit).cloned().collect();
+    let mut c_cases = 0u64;
+    for x in PC_RULES.iter() {
+        for y in PC_RULES.iter() {
+            for long_first in [false, true] {
+                for rec in &e2e_recs {
+                    c_cases += 1;
+                    if !ctx.next_is_mine() {
+                        ctx.skip_cases(1);
+                        continue;
+                    }
+                    let d = dir.get_or_insert_with(|| {
+                        let d = crate::oka::scratch_dir("c17");
+                        let s = d.to_string_lossy().to_string();
+                        assert!(!s.contains("bank/"), "harness bug: scratch path {} contains a configuration path", s);
+                        d
+                    });
+                    let d = d.clone();
+                    e2e_case(ctx, &d, x, y, long_first, rec);
+                }
+            }
+        }
+    }
+    ctx.fact("C_cases", c_cases);
+}
